@@ -39,7 +39,7 @@ func init() {
 		Assumptions: []string{"non-empty key lists; CountPrefixes only on strictly ascending keys, e-s >= 2, m >= 1"},
 		Flavours:    releaseAnd386,
 		Required: []string{"fd/equal", "fd/byte-prefix", "fd/nul-padding-twin", "fd/diff-in-chunk-0", "fd/diff-in-chunk-1", "fd/diff-in-chunk-2", "fd/diff-at-chunk-boundary", "fd/empty-key", "fd/single-key-list",
-			"cp/s>0", "cp/m=1", "cp/m>=64", "cp/key-shorter-than-prefix", "cp/all-subranges", "cp/keys>=66", "cp/range-ends-at-multiple-of-64-keys", "fd/first-diff-bit>=2048", "fd/first-diff-bit>=32768", "fd/keys>2^18"},
+			"cp/s>0", "cp/m=1", "cp/m>=64", "cp/key-shorter-than-prefix", "cp/all-subranges", "cp/keys>=66", "cp/range-ends-at-multiple-of-64-keys", "cp/range>2^17-dense-keys", "cp/key-buffer-refilled-after-New", "fd/first-diff-bit>=2048", "fd/first-diff-bit>=32768", "fd/keys>2^18"},
 		Families: func(c *mon.Config) []mon.Family {
 			return []mon.Family{
 				{Name: "cold-start", N: 1, Serial: true, Run: func(w *mon.W, _ int) {
@@ -239,6 +239,14 @@ func c16CountWith(w *mon.W, idx int, medium bool) {
 			w.Fail("New/input-modified", mon.D{"nkeys": len(keys), "i": i})
 			return
 		}
+	}
+	// every other case: the caller refills the buffer it passed to New before it queries (the next batch of keys is
+	// read into the same slice); the SigBits describes the keys it was built from
+	if idx&1 == 1 {
+		for i := range qKeys {
+			qKeys[i] = poisonS
+		}
+		w.Bucket("cp/key-buffer-refilled-after-New")
 	}
 	n := len(keys)
 	all := n <= 8
@@ -468,6 +476,47 @@ func c16ManyKeys(w *mon.W, idx int) {
 	}
 	w.Eval(int64(n))
 	w.Bucket("fd/keys>2^18")
+	// CountPrefixes over ranges of more than 2^17 of these dense keys (sequential ids: tens of thousands of adjacent
+	// pairs share one first-difference bit). All keys have 48 bits, so for sorted keys the number of distinct k-bit
+	// prefixes (k <= 48) is 1 + the number of adjacent pairs in the range that differ before bit k.
+	w.Op = "sigbits.New(many keys)"
+	sb := sigbits.New(keys)
+	for _, q := range [][3]int{{0, n, 30}, {1000, 140000, 25}, {n - 131073, n, 12}, {5, 70000, 20}} {
+		s, e, m := q[0], q[1], q[2]
+		m0 := 1 << 30
+		for i := s; i < e-1; i++ {
+			if int(got[i]) < m0 {
+				m0 = int(got[i])
+			}
+		}
+		if m0+m > 48 {
+			m = 48 - m0
+		}
+		below := make([]int32, m+1) // below[k] = pairs with fd < m0+k
+		for i := s; i < e-1; i++ {
+			if d := int(got[i]) - m0; d < m {
+				below[d+1]++
+			}
+		}
+		for k := 1; k <= m; k++ {
+			below[k] += below[k-1]
+		}
+		w.Op, w.A, w.B, w.C = "CountPrefixes(many keys)", int64(s), int64(e), int64(m)
+		gm, gc := sb.CountPrefixes(int32(s), int32(e), int32(m))
+		w.Tick()
+		w.Eval(1)
+		if int(gm) != m0 || len(gc) != m {
+			w.Fail("CountPrefixes/min", mon.D{"nkeys": n, "s": s, "e": e, "m": m, "got_min": gm, "expected_min": m0, "got_len": len(gc)})
+			return
+		}
+		for i := 0; i < m; i++ {
+			if int(gc[i]) != 1+int(below[i]) {
+				w.Fail("CountPrefixes/counter", mon.D{"nkeys": n, "s": s, "e": e, "m": m, "i": i, "prefix_bits": m0 + i, "got": gc[i], "expected": 1 + below[i], "what": "dense sequential keys: more than 2^16 adjacent pairs of the range share one first-difference bit"})
+				return
+			}
+		}
+	}
+	w.Bucket("cp/range>2^17-dense-keys")
 	w.Distinct(gen.Hash64(0x3a9, uint64(n)))
 	w.Sample(func() interface{} {
 		return mon.D{"nkeys": n, "what": "more than 2^18 ascending keys under a common prefix"}
